@@ -75,8 +75,8 @@ Definition n_kibana : name := [46;107;105;98;97;110;97].   (* ".kibana" *)
 Definition excluded (n : name) : bool := mem (remove_stars n) excluded_names.
 
 (* ---------- the regular-expression fragment ----------
-   regexStr := "^" + strings.ReplaceAll(indexName, "*", ".*") + "$" is compiled by Go
-   regexp.  Fragment modelled: literal bytes, '.', postfix '*' '+' '?' (incl. the lazy
+   PRE-FIX code: regexStr := "^" + strings.ReplaceAll(indexName, "*", ".*") + "$" is compiled by Go
+   regexp (kept as documentation of the repaired defect: rx_matcher / expand_prefix).  Fragment modelled: literal bytes, '.', postfix '*' '+' '?' (incl. the lazy
    marker '?' after a repetition), the two anchors added by the code.  The bytes
    \ ( ) [ ] { } | ^ $ inside an index pattern are outside the fragment
    ([rx_supported] = false). *)
@@ -234,10 +234,19 @@ Section Expand.
     end.
 End Expand.
 
-(* the code *)
-Definition expand := expand_with rx_matcher.
+(* the code (after the fix "quote index pattern"): IndexPatternToRegexStr splits the pattern at '*',
+   applies regexp.QuoteMeta to every part and joins the parts with ".*" under "(?s)^...$".  In the
+   regex fragment this is: every byte other than '*' is a literal, '*' is "any bytes".  Compilation
+   cannot fail. *)
+Definition fixed_items (p : name) : list ritem :=
+  map (fun c => if c =? c_star then IStar AAny else IOne (ALit c)) p.
+Definition fixed_matcher (p : name) : option (name -> bool) := Some (rmatch (fixed_items p)).
+
+Definition expand := expand_with fixed_matcher.
 (* the specification: the same expansion with glob matching *)
 Definition expand_glob := expand_with glob_matcher.
+(* PRE-FIX code (documentation): the pattern went into the regexp unquoted, see rx_matcher above *)
+Definition expand_prefix := expand_with rx_matcher.
 
 (* ---------- ops ---------- *)
 Inductive op :=
